@@ -28,6 +28,7 @@ func init() {
 			"reference ref.ArcToCenter: SVG 1.1 F.6.5/F.6.6 in float64, own implementation",
 			"on-ellipse tolerance 1e-3 (a cubic spanning 90 degrees deviates 2.8e-4) plus a float32 conditioning term that grows as 1/chord when the chord is short compared with the radii (the centre is then ill-determined by the end points); sweep extent tolerance 2e-2 rad plus that term; endpoint 1e-5 relative",
 			"arcs with |radii check - 1| < 1e-4 (half turn fitting exactly) are excluded from the on-ellipse/extent checks only: centre and flags are ill-conditioned there",
+			"shallow arcs (chord below 5e-3 in unit-circle coordinates, small arc) are also judged in pixels: a point at unit-circle radius r is at least |r-1|*min(radii)*min(scales) px off the ellipse; tolerance 0.02 px + 2e-6 of the pixel magnitudes involved (the unchanged tree stays below 4e-4 px on 8192-px targets for radii up to 1e8)",
 		},
 		Subs: []*run.Sub{
 			{Name: "arcs", N: func(t string) uint64 {
